@@ -58,6 +58,17 @@ def _fold(ctx, entry: GateEntry, args: List[EP]) -> Mat:
     out = ev.run(entry.factory.node, args)
     if not isinstance(out, Mat):
         raise Undecided(f"{entry.factory.qualname} does not return a matrix")
+    # a parameter reduced modulo a period before use: the fold ignored the reduction, which is only right if the folded
+    # table really has that period (M(p + P) = M(p) identically); otherwise values outside the principal range get a
+    # different matrix than the closed form (e.g. a sign for half-angle gates), which breaks additivity
+    pv = positional_params(entry.factory.node)
+    for fname, pname, period in ev.reductions:
+        if fname != entry.factory.node.name or pname not in pv:
+            raise Undecided(f"parameter reduction inside the helper {fname}")
+        shifted = out.subst({pname: EP.var(pname) + period})
+        diff = shifted.first_difference(out)
+        where = f"{entry.factory.module.relpath}:{entry.factory.node.lineno}"
+        ctx.check(diff is None, "C02-D6 group-law", f"{entry.factory.key}:reduction:{pname}", f"{entry.ident}: `{pname}` is reduced modulo {period!r} and the matrix has that period", f"{entry.ident}: `{pname}` is reduced modulo {period!r} before the matrix is built, but the closed form does not have that period: M({pname} + P)[{diff[0]}][{diff[1]}] = {diff[2]!r} vs {diff[3]!r}; angles outside the principal range give a different gate, so angle a followed by angle b is no longer angle a+b" if diff else "", where)
     return out
 
 
